@@ -314,6 +314,8 @@ class Ctx:
             self.cov["samples"].append(s)
 
     def violation(self, what, replay, found_input=True):
+        if len(what) > 700:
+            what = what[:700] + " …"
         self.violations.append((what, replay, found_input))
 
     def disagree(self, inp, impl, model, extra=None):
